@@ -281,6 +281,12 @@ func (f *Frame) execCall(c *ssa.CallCommon, result ssa.Value, pos token.Pos) EV 
 		f.cur = st
 		return packResults(res, resT)
 	}
+	if c.IsInvoke() && strings.HasPrefix(key, "iface:interfaces.") {
+		// A-SPI: a consumer-supplied SPI method without an explicit contract returns arbitrary values and does not
+		// touch library state (it is not given any library object it could modify)
+		vc.used["A-SPI:"+key] = true
+		return f.havocResult(resT, key)
+	}
 	vc.errf("%s: call to %s has no contract, model or body (UNDECIDED)", vc.P.fnKey(f.fn), key)
 	// unknown effects: havoc the heap
 	f.havocHeap()
@@ -760,6 +766,9 @@ func (f *Frame) execBuiltin(b *ssa.Builtin, c *ssa.CallCommon, result ssa.Value,
 		vc.used["A-CHAN"] = true
 		ch := f.sval(c.Args[0])
 		f.safety("nil-deref", sx("distinct", ch.t, "0"), pos)
+		cl := f.getCell(f.cur, "ghost:closed", "(Array Int Bool)")
+		f.safety("close-of-closed-channel", not(sx("select", cl, ch.t)), pos)
+		f.setCell(f.cur, "ghost:closed", "(Array Int Bool)", sx("store", cl, ch.t, "true"))
 		return Tuple{}
 	case "ssa:deferstack":
 		return Val{"0", SInt, nil}
